@@ -64,7 +64,7 @@ def gen_cases(tier, seed):
             pre += [{"p": dstp, "k": "d"}, {"p": dstp + "/precious", "k": "f", "size": 9, "seed": 6, "segs": None}]
         elif prior == "link-dangling":
             pre.append({"p": dstp, "k": "l", "target": "nowhere-at-all"})
-        args = ["--driver", driver, "-w", str(r.choice([1, 2, 4]))] + (["-n"] if noclobber else [])
+        args = ["--driver", driver, "-w", str(r.choice([0, 1, 2, 4]))] + (["-n"] if noclobber else [])
         args += ["-L"] if viaL else r.choice([[], [], [], ["-L"], ["--gitignore"], ["--fsync"], ["--no-perms"], ["--no-timestamps", "--ownership"], ["--reflink", "never"], ["--no-progress"]])
         hasblk |= viaL
         args += [nodes[0]["p"], "dst"] if sole else ["-r", "src", "dst"]
